@@ -187,9 +187,12 @@ def run(ctx):
                 md2 = T.translate_symbols(md, {c: (nb if c == md["blank"] else c) for c in md["tape_symbols"]})
                 check(ctx, batch, md2, w.replace(md["blank"], nb), B, "blank_renamed")
     # two branches that differ in the state only, state names that are small negative integers (-1, -2, ...)
-    for i in range(ctx.n(40, 400)):
+    for i in range(ctx.n(100, 600)):
         names, _ = gen.pick_names(rng, 6, "negint")
-        rng.shuffle(names)
+        head, tail = names[:2], names[2:]
+        rng.shuffle(head)            # -1 and -2 are both working states (one of them the initial state)
+        rng.shuffle(tail)
+        names = head + tail
         md = T.rand_table(rng, k=rng.choice([1, 1, 2]), nondet=True, names=names, twin=True, nasty=False)
         for w in T.rand_words(rng, md, 3, maxlen=4):
             w = "".join(c for c in w if c in md["tape_symbols"])
